@@ -134,7 +134,7 @@ def run_case(case):
             if "remove_placed_component" in stack or "set_placed" in stack or "check_removing_placed_workplace" in stack:
                 mon = [x for x in tr.monitors if isinstance(x, M.MonC13)][0]
                 mech = "C13/exception-in-placement:%s:%s" % (err["type"], err["where"].split(":")[-1])
-                if mon.split:
+                if mon.any_split(m.project):
                     mech += ":assembly-split"
                 res.violate("C13", mech, "placement code raised %s: %s at %s" % (err["type"], err["msg"], err["where"]), stack=err["stack"])
         return res
